@@ -411,9 +411,21 @@ def parseMessage(rawMessage, oobFDs):
 
     for code, v in hval[6]:
         try:
-            setattr(m, _hcode[code], v)
+            attr_name = _hcode[code]
         except KeyError:
-            pass
+            continue
+        # a header field this implementation knows holds a string (or, for
+        # REPLY_SERIAL and UNIX_FDS, a number): a message giving it anything
+        # else is invalid, whoever forwards it must not pass it on
+        if attr_name in ('reply_serial', 'unix_fds'):
+            ok = isinstance(v, int) and not isinstance(v, bool)
+        else:
+            ok = isinstance(v, str)
+        if not ok:
+            raise error.MarshallingError(
+                'Invalid value for header field %d' % (code,)
+            )
+        setattr(m, attr_name, v)
 
     if m.signature:
         nbytes, m.body = marshal.unmarshal(
